@@ -488,6 +488,16 @@ def _call(node, sc):
         return boolv(z3.PrefixOf(args[1].v, args[0].v))
     if name == "endswith":
         return boolv(z3.SuffixOf(args[1].v, args[0].v))
+    if name in ("int_str_ok", "num_str_ok", "int_of_str", "num_of_str"):
+        from . import calls as _c
+
+        if name == "int_str_ok":
+            return boolv(_c.IntStrOK(args[0].v))
+        if name == "num_str_ok":
+            return boolv(_c.NumStrOK(args[0].v))
+        if name == "int_of_str":
+            return Val(INT, _c.IntOfStr(args[0].v))
+        return Val(NUM, _c.NumOfStr(args[0].v, args[1].v))
     if name == "is_int_typed":
         return boolv(ops.IsIntTyped(to_real(args[0])))
     if name in decl.PREDICATES:
